@@ -423,6 +423,10 @@ class WebsocketSession(object):
                         for event in self.websocket.feed(data):
                             self._on_event(event, auto_pong)
                             yield event
+                            if event.name == 'protocol_error':
+                                # The connection is about to be failed, no
+                                # pings or polls until feed has done that.
+                                continue
                             for event in _regular():
                                 yield event
                     else:
